@@ -15,7 +15,7 @@ LEVEL = "exploration"
 RULE = (
     "two case families. (script) 2-3 threads, each with a list of operations in {call the SHARED DAG with its own "
     "arguments, build a DAG from a generated program (optionally pausing inside the describing function at a drawn "
-    "statement boundary, i.e. while tawazi's description lock is held), call a decorated function outside any DAG, "
+    "statement boundary, i.e. while tawazi's description lock is held), run the shared DAG through an executor object of the thread's own, call a decorated function outside any DAG, "
     "reload the configuration of a DAG owned by that thread and run it}; a "
     "drawn global order steps the threads one stop point at a time, so calls and outside-DAG invocations happen WHILE "
     "another thread is inside a description. oracle: each call returns the reference value for its own arguments; an "
@@ -61,7 +61,11 @@ class Worker(threading.Thread):
                 if op["op"] == "call":
                     ex = sched.Exec("free")
                     with ex:
-                        r["value"] = self.shared.dag(*[prog.dec(a) for a in op["args"]])
+                        if op.get("via") == "executor":
+                            # the documented per-thread way of running a shared DAG: an executor object of one's own
+                            r["value"] = self.shared.dag.executor()(*[prog.dec(a) for a in op["args"]])
+                        else:
+                            r["value"] = self.shared.dag(*[prog.dec(a) for a in op["args"]])
                 elif op["op"] == "outside":
                     r["value"] = self.outside(prog.dec(op["arg"]))
                 elif op["op"] == "reconf":
@@ -318,7 +322,8 @@ def cases(draw: Any, tier: str) -> Dict[str, Any]:
             if t == 0 and not ops:
                 k = "build"  # thread 0 starts with a (usually pausing) build
             if k == "call":
-                ops.append({"op": "call", "args": [draw(st.sampled_from([0, 1, 10, "a", None]))]})
+                ops.append({"op": "call", "args": [draw(st.sampled_from([0, 1, 10, "a", None]))],
+                            "via": draw(st.sampled_from(["call", "call", "executor"]))})
             elif k == "outside":
                 ops.append({"op": "outside", "arg": draw(st.sampled_from([5, "z"]))})
             elif k == "reconf":
